@@ -1,5 +1,7 @@
 (* C10 -- memory limit.  Only statements, `exact` proofs and Print Assumptions. *)
 From LolModel Require Import Machine Selectors Rewriter.
+From LolProofs Require Import LimitMono.
+From LolModel Require Import Selectors Rewriter.
 From LolProofs Require Import Memory.
 
 (* For every configuration (selectors, handlers of any kind, failure injection), every limit M that admits
@@ -46,6 +48,19 @@ Example C10_prealloc_above_limit_refuted :
   prealloc_fits rewrite_controller cfg c0 = false /\ (accounted (new_stream rewrite_controller cfg c0) > st_max_mem cfg)%N.
 Proof. vm_compute. split; reflexivity. Qed.
 
+(* Monotonicity in the limit, at the two places where the limit is consulted (the parsing buffer and the open-element stack):
+   what is granted under M is granted, with the same resulting state and the same accounting, under every M' >= M.
+   (The lifting to whole runs -- "a run that succeeds under M succeeds identically under M'" -- is decided by the limit-sweep
+   groups of the `mem` family, not proved.) *)
+Theorem C10_buffer_growth_is_monotone_in_the_limit :
+  forall a other M M' slice a', (M <= M')%N -> arena_append a other M slice = (a', true) -> arena_append a other M' slice = (a', true).
+Proof. exact arena_append_mono. Qed.
+Theorem C10_stack_growth_is_monotone_in_the_limit :
+  forall s it isz mi other M M' s' ch, (M <= M')%N -> stack_push s it isz mi other M = (s', ch, true) -> stack_push s it isz mi other M' = (s', ch, true).
+Proof. exact stack_push_mono. Qed.
+
 Print Assumptions C10_limit_after_successful_writes.
 Print Assumptions C10_write_keeps_limit.
 Print Assumptions C10_stack_growth_is_charged.
+Print Assumptions C10_buffer_growth_is_monotone_in_the_limit.
+Print Assumptions C10_stack_growth_is_monotone_in_the_limit.
